@@ -570,7 +570,7 @@ def bypassing_returns(ctx, fi: FunctionInfo, fam_stmts: Dict[str, List[ast.AST]]
 
 
 def check_families(ctx, res, rule: str, fi: FunctionInfo, required: List[str], what: str,
-                   exempt_bypass: Tuple[str, ...] = ()) -> int:
+                   exempt_bypass: Tuple[str, ...] = (), quick_rejection: bool = False) -> int:
     """presence of every required candidate family + no result return of the candidate region bypasses one.
     Returns the number of obligations emitted."""
     from .model import AnalysisError
@@ -602,6 +602,37 @@ def check_families(ctx, res, rule: str, fi: FunctionInfo, required: List[str], w
         region = g.reach(list(all_ids))
         for r, fam in bypassing_returns(ctx, fi, fams, req_present):
             rn = g.nodes_of(r)
+            if quick_rejection and rn and rn[0] not in region and isinstance(r.value, ast.Constant) and r.value.value is None \
+                    and not any(x[0] is r for x in bad):
+                # an early `return None` in front of every candidate family: fine as an operand guard (None / type tests), not as
+                # a geometric quick rejection ("no vertex of one lies in the other"), which decides "disjoint" without consulting
+                # the families that detect the configurations it misses
+                par_ = parents(fi.node)
+                cur_ = r
+                geometric = None
+                while id(cur_) in par_:
+                    prev_, cur_ = cur_, par_[id(cur_)]
+                    if isinstance(cur_, ast.If):
+                        def typeish(t):
+                            if isinstance(t, ast.BoolOp):
+                                return all(typeish(v) for v in t.values)
+                            if isinstance(t, ast.UnaryOp) and isinstance(t.op, ast.Not):
+                                return typeish(t.operand)
+                            if isinstance(t, ast.Call) and isinstance(t.func, ast.Name) and t.func.id == "isinstance":
+                                return True
+                            if isinstance(t, ast.Compare) and len(t.ops) == 1 and isinstance(t.ops[0], (ast.Is, ast.IsNot)):
+                                return True
+                            return False
+                        if not typeish(cur_.test):
+                            geometric = cur_.test
+                    if isinstance(cur_, ast.FunctionDef):
+                        break
+                if geometric is not None and any(isinstance(x, (ast.Compare, ast.Call)) for x in ast.walk(geometric)) \
+                        and any(isinstance(x, ast.Name) and x.id in fi.params for x in ast.walk(geometric)):
+                    bad.append((r, "%s (quick rejection `%s`)" % (fam, txt(geometric)[:50])))
+                continue
+            if rn and rn[0] not in region:
+                continue
             if rn and rn[0] in region:
                 # nested inside the loop / candidate-if of ANOTHER family: an element found by that family is returned
                 nested = False
